@@ -19,7 +19,35 @@ import (
 	"verifharness/lsw"
 )
 
-func genC06(t *rapid.T) lsw.Case { return genRepHist(t, core.Thorough(), false, false) }
+func genC06(t *rapid.T) lsw.Case {
+	c := genRepHist(t, core.Thorough(), false, false)
+	// a third of the histories continue with a compaction ladder: rounds of (writes, level-1 compactions - one or
+	// several per round -, then the higher levels in order), so that higher-level compactions see exactly one new
+	// source file in some rounds and several in others, and every level is compacted repeatedly
+	if rapid.IntRange(0, 2).Draw(t, "ladder") == 0 {
+		if c.Cfg.Levels < 3 {
+			c.Cfg.Levels = rapid.IntRange(3, 4).Draw(t, "ladderLevels")
+		}
+		top := rapid.IntRange(2, c.Cfg.Levels).Draw(t, "ladderTop")
+		for r, n := 0, rapid.IntRange(3, 5).Draw(t, "ladderRounds"); r < n; r++ {
+			for k := rapid.IntRange(1, 3).Draw(t, "l1PerRound"); k > 0; k-- {
+				if rapid.Bool().Draw(t, "ladderUpd") {
+					c.Ops = append(c.Ops, lsw.Op{K: "update", T: 0, A: 0, B: rapid.IntRange(10, 100).Draw(t, "b")})
+				} else {
+					c.Ops = append(c.Ops, lsw.Op{K: "insert", T: 0, N: rapid.SampledFrom([]int{1, 5, 12}).Draw(t, "n"), S: 1})
+				}
+				c.Ops = append(c.Ops, lsw.Op{K: "syncwait"}, lsw.Op{K: "compact", L: 1})
+			}
+			for l := 2; l <= top; l++ {
+				if rapid.IntRange(0, 9).Draw(t, "skipLevel") < 8 {
+					c.Ops = append(c.Ops, lsw.Op{K: "compact", L: l})
+				}
+			}
+		}
+		c.Ops = append(c.Ops, lsw.Op{K: "syncwait"})
+	}
+	return c
+}
 
 func restoreHash(ctx context.Context, replicaDir, scratch string, txid ltx.TXID) (string, error) {
 	out := filepath.Join(scratch, fmt.Sprintf("rh-%d-%d.db", txid, os.Getpid()))
